@@ -78,13 +78,25 @@ fn proper_named_descendants<'a>(n: &TsNode<'a>) -> Vec<TsNode<'a>> {
 
 /// Cut a pattern from node `n`: `hole_picks` choose descendants to abstract, `run_pick`
 /// optionally chooses (list-parent, first sibling of the trailing run).
-pub fn cut_pattern(
+pub fn cut_pattern(src: &str, n: &TsNode, hole_picks: &[Index], run_pick: Option<(Index, Index)>) -> PatSpec {
+  cut_pattern_pref(src, n, hole_picks, run_pick, false)
+}
+
+/// `prefer_multiline`: holes are chosen among descendants spanning several lines when there are any
+pub fn cut_pattern_pref(
   src: &str,
   n: &TsNode,
   hole_picks: &[Index],
   run_pick: Option<(Index, Index)>,
+  prefer_multiline: bool,
 ) -> PatSpec {
-  let descendants = proper_named_descendants(n);
+  let mut descendants = proper_named_descendants(n);
+  if prefer_multiline {
+    let ml: Vec<TsNode> = descendants.iter().filter(|d| tsutil::text(src, d).contains('\n')).cloned().collect();
+    if !ml.is_empty() {
+      descendants = ml;
+    }
+  }
   let mut run: Option<Run> = None;
   if let Some((pi, ki)) = run_pick {
     // parents (n itself or descendants) with at least one named child
